@@ -1124,7 +1124,13 @@ impl<E: Effect> Environment<E> {
         if let Some(pending) = self.pending_awaits.get_mut(&awaiter) {
             // This is part of an initial await - collect the response
             if let Some(worker_id) = sender_worker_id {
-                pending.responses.insert(worker_id, results.clone());
+                // A later completion from the same worker may arrive while the initial query is
+                // still pending: merge it into that worker's answer rather than replacing it.
+                pending
+                    .responses
+                    .entry(worker_id)
+                    .or_default()
+                    .extend(results.clone());
                 pending.expected_workers.remove(&worker_id);
 
                 // Check if all workers have responded
